@@ -229,6 +229,12 @@ def analyse_loop(b, h, body):
                 changing.add(x)
             if mut_borrowed_roots(b, c) & state:
                 changing.add(x)
+            # taking a message off a channel changes the channel although it is borrowed immutably (`while let Ok(m) = receiver.recv()`)
+            nm = c.callee or ""
+            if nm.split("::")[-1] in ("recv", "recv_timeout", "try_recv", "recv_deadline") and "Receiver" in nm and c.args:
+                p0 = op_place(c.args[0])
+                if p0 is not None and (b.root(p0)[0] in state or p0[0] in state):
+                    changing.add(x)
         elif t[0] == "drop" and t[1][0] in state:
             pass
     if h in changing:
